@@ -202,6 +202,25 @@ def check_state(acc, c, insts, case, site):
     return True
 
 
+def prime_strip(c):
+    """Earlier strip_blackboxes calls on the same object - one while gate g still carries another type (edited back
+    in place afterwards), all with their results scrambled by the caller - must not influence the judged calls."""
+    import circuitgraph as cg
+
+    for ign in (None, "__none__"):
+        try:
+            c.set_type("g", "or")
+            space.scramble(cg.tx.strip_blackboxes(c) if ign is None else cg.tx.strip_blackboxes(c, ignore_pins=None))
+        except Exception:  # noqa: BLE001
+            pass
+        finally:
+            c.set_type("g", "and")
+        try:
+            space.scramble(cg.tx.strip_blackboxes(c))
+        except Exception:  # noqa: BLE001
+            pass
+
+
 def check_strip(acc, c, insts, case, ignore):
     import circuitgraph as cg
 
@@ -292,11 +311,55 @@ def apply_op(acc, c, insts, op, case, site, pool=None):
             it = next(i for i in insts if i.name == op[2])
             c.fill_blackbox(op[2], pooled("circuit", it.child, lambda: space.build(it.child)))
             it.status = "spliced"
+        elif kind == "FX":
+            # fill with a child whose interface is NOT the blackbox's: rejecting (ValueError, nothing changed) is fine;
+            # accepting is fine only if the result still is a functional substitution (decided by check_state)
+            it = next(i for i in insts if i.name == op[2])
+            alt, how = alt_child(it.child, op[1])
+            try:
+                c.fill_blackbox(op[2], space.build(alt))
+            except ValueError:
+                acc.outcome("FX-rejected")
+                return True
+            if how == "swapped":
+                acc.violation(site, "fill-accepted-child-with-swapped-directions", case,
+                              f"blackbox {op[2]} ({it.ins} -> {it.outs}) filled with a child whose inputs are {child_ports(alt)[0]}")
+                return False
+            it.child, it.status = alt, "spliced"
+            acc.outcome("FX-accepted")
+            return "stop"
     except Exception as e:  # noqa: BLE001
+        if len(op) > 4 and op[4] == "collide" and isinstance(e, ValueError):
+            # the carried-over sub-blackbox would take a registry name the parent already uses: must be refused
+            if kind == "S":
+                insts.pop() if insts and insts[-1].name == op[2] else None
+            acc.outcome(f"{kind}-rejected")
+            return "stop-unchanged"
         acc.violation(site, f"{kind}-raises:{common.exc_name(e)}", case, repr(e))
+        return False
+    if len(op) > 4 and op[4] == "collide":
+        acc.violation(site, f"{kind}-accepted-colliding-sub-blackbox-name", case,
+                      f"registry now {sorted(c.blackboxes)}: one key for two different blackboxes")
         return False
     acc.outcome(f"{kind}-ok")
     return True
+
+
+def alt_child(child, how):
+    """A child with the same port NAMES as ``child`` but another interface."""
+    ins, outs = child_ports(child)
+    outs = [o for o in outs if o not in ins]
+    if how == "swapped":
+        nodes = [[o, "input", [], False] for o in outs]
+        for i in ins:
+            nodes.append([i, "not" if outs else "1", [outs[0]] if outs else [], True])
+        return {"name": child["name"] + "_swapped", "nodes": nodes}, how
+    alt = {"name": child["name"] + "_feedout", "nodes": [list(x) for x in child["nodes"]]}
+    for x in alt["nodes"]:
+        if x[1] == "input":
+            x[3] = True      # the first input is also flagged as an output of the child
+            break
+    return alt, how
 
 
 def conn_maps(child, in_targets, sockets):
@@ -334,12 +397,16 @@ def run_history(acc, ops, site, strip=True, shared=False):
     pool = {} if shared else None
     for i, op in enumerate(ops):
         case = {"kind": "history", "ops": ops[: i + 1], "site": site, "shared": shared}
-        if not apply_op(acc, c, insts, op, case, site, pool):
+        r = apply_op(acc, c, insts, op, case, site, pool)
+        if not r:
             return False
         if not check_state(acc, c, insts, case, site):
             return False
+        if r in ("stop", "stop-unchanged"):
+            break
     if strip and c.blackboxes:
         case = {"kind": "history", "ops": ops, "site": site, "shared": shared}
+        prime_strip(c)
         for ign in strip_ignores(c):
             check_strip(acc, c, insts, case, ign)
     return True
@@ -375,7 +442,7 @@ def run_single(job, acc):
     for _idx, child in space.chunk(children(), job["chunk"], job["of"]):
         ins, outs = child_ports(child)
         feed = bool(set(ins) & set(outs))
-        for conn in uniq(conn_maps(child, ["a", "b", "g"], SOCKETS)):
+        for nconn, conn in enumerate(uniq(conn_maps(child, ["a", "b", "g"], SOCKETS))):
             nt = any(o in conn for o in outs)
             for route in ("S", "BF"):
                 if route == "BF" and feed:
@@ -385,6 +452,10 @@ def run_single(job, acc):
                 if nt:
                     acc.nontrivial += 1
                 run_history(acc, ops, "single")
+                if route == "BF" and nconn % 3 == 0 and child_ports(child)[0]:
+                    for how in ("swapped", "feedout"):
+                        acc.states += 1
+                        run_history(acc, [["B", child, "u1", conn], ["FX", how, "u1", None], ["F", None, "u1", None]], "single", strip=False)
                 if route == "BF" and child.get("name") != "child":
                     # a hierarchical-looking instance name (flattened designs): core.m1
                     acc.states += 1
@@ -430,11 +501,22 @@ def hist_sequences(depth):
                                         yield ops[:cut]
 
 
+def collision_sequences():
+    """The parent already holds a blackbox instance called u1_m when u1 (whose child holds a sub-blackbox m) arrives."""
+    inv = HIST_CHILDREN["inv"]
+    for k1 in ("withbb", "withbb2"):
+        c1 = HIST_CHILDREN[k1]
+        for m1 in uniq(conn_maps(c1, ["a", "g"], ["w1"]))[:3]:
+            yield [["B", c1, "u1", m1], ["B", inv, "u1_m", {}], ["F", None, "u1", None, "collide"]]
+            yield [["B", inv, "u1_m", {"a": "b"}], ["B", c1, "u1", m1], ["F", None, "u1", None, "collide"]]
+            yield [["B", inv, "u1_m", {}], ["S", c1, "u1", m1, "collide"]]
+
+
 def run_hist(job, acc):
     depth = bounds(job["tier"])["hist_depth"]
     seen = set()
     idx = 0
-    for ops in hist_sequences(depth):
+    for ops in itertools.chain(collision_sequences(), hist_sequences(depth)):
         k = common.jdump(ops)
         if k in seen:
             continue
@@ -477,7 +559,8 @@ def replay(case, job):
     pool = {} if case.get("shared") else None
     for i, op in enumerate(ops):
         cs = {"kind": "history", "ops": ops[: i + 1], "shared": bool(case.get("shared"))}
-        if not apply_op(acc, c, insts, op, cs, case.get("site", "single"), pool):
+        r = apply_op(acc, c, insts, op, cs, case.get("site", "single"), pool)
+        if not r:
             ok = False
             break
         if not check_state(acc, c, insts, cs, case.get("site", "single")):
@@ -485,6 +568,7 @@ def replay(case, job):
             break
     if ok and c.blackboxes:
         ign = case.get("strip_ignore", "__all__")
+        prime_strip(c)
         for ig in (strip_ignores(c) if ign == "__all__" else [ign]):
             check_strip(acc, c, insts, {"kind": "history", "ops": ops}, ig)
     return acc.result()
